@@ -122,3 +122,4 @@ func VerifC02IAAddrSample() {
 	verifAssert(q.ValidLifetime == o.ValidLifetime, "valid-roundtrip")
 	verifReach("end")
 }
+
